@@ -10,7 +10,7 @@ import z3
 from .prog import Unsupported
 from .values import NONE, UNIT, Opaque, REnum, RMap, RSet, RStruct, RTuple, RVec, Ref, Union, b_and, b_not, b_or, err, key_of, ok, simp, some
 
-ABSENT, FILE, DIR, LINK = 0, 1, 2, 3     # LINK: symbolic link to a directory (target given by the scenario)
+ABSENT, FILE, DIR, LINK = 0, 1, 2, 3     # LINK: symbolic link; its target path is given by the scenario, the target's kind is symbolic
 
 Hinit = z3.BitVecVal(0x16f11fe89b0d677c, 64)
 Hstep = z3.Function('seahash_write', z3.BitVecSort(64), z3.BitVecSort(32), z3.BitVecSort(64))
@@ -26,7 +26,7 @@ def parent(p):
 
 class VfsWorld:
     def __init__(self, paths, nchunks=1, state_files=(), always_dirs=('/',), cmds=(), links=None):
-        self.links = dict(links or {})       # link path -> directory it points to (the link exists iff its kind is LINK)
+        self.links = dict(links or {})       # link path -> path it points to (the link exists iff its kind is LINK; targets are not links themselves)
         self.paths = list(paths)
         self.nchunks = nchunks
         self.state_files = set(state_files)
@@ -109,6 +109,13 @@ class VfsWorld:
             return z3.BitVecVal(ABSENT, 2)
         return self.sym_kind(self.epoch, p)
 
+    def rkind(self, p):
+        """Kind after following a final symbolic link (what stat() sees); a dangling link resolves to ABSENT."""
+        k = self.kind(p)
+        if p in self.links:
+            return simp(z3.If(k == LINK, self.kind(self.links[p]), k))
+        return k
+
     def havoc(self):
         """A new epoch: everything may have changed (state files keep what the code wrote unless listed as volatile)."""
         self.epoch += 1
@@ -117,30 +124,51 @@ class VfsWorld:
 
     # ------------------------------------------------------------------ queries
     def path_query(self, I, path, method, node):
-        k = self.kind(path)
+        k = self.rkind(path)       # Path::{exists,is_file,is_dir,metadata} follow links
         if method == 'exists':
             return simp(k != ABSENT)
         if method == 'is_file':
             return simp(k == FILE)
         if method == 'is_dir':
-            return simp(z3.Or(k == DIR, k == LINK))      # follows the link (links point to directories here)
-        if method in ('metadata', 'symlink_metadata'):
+            return simp(k == DIR)
+        if method == 'is_symlink':
+            return simp(self.kind(path) == LINK)
+        if method == 'metadata':
             if I.branch(simp(k == ABSENT)):
                 return err(Opaque('IoError', msg='not found', kind=REnum('ErrorKind', 'NotFound')))
             return ok(Opaque('Metadata', path=path))
+        if method == 'symlink_metadata':
+            if I.branch(simp(self.kind(path) == ABSENT)):
+                return err(Opaque('IoError', msg='not found', kind=REnum('ErrorKind', 'NotFound')))
+            return ok(Opaque('Metadata', path=path, nofollow=True))
         raise Unsupported('path query %s' % method, node)
 
     def mtime(self, p):
+        """Modification time seen through the path (links followed)."""
+        tl = self.through_link(p)
+        if tl is not None:
+            return self.mtime(tl[1])
         o = self.over.get(p)
         if o is not None and o[0] == 'file':
             return o[1]
-        return self.sym_mtime(self.epoch, p)
+        own = self.sym_mtime(self.epoch, p)
+        if p in self.links:
+            return simp(z3.If(self.kind(p) == LINK, self.mtime(self.links[p]), own))
+        return own
 
     def chunks(self, p):
+        tl = self.through_link(p)
+        if tl is not None:
+            return self.chunks(tl[1])
         o = self.over.get(p)
         if o is not None and o[0] == 'file':
             return o[2]
-        return [self.sym_chunk(self.epoch, p, j) for j in range(self.nchunks)]
+        own = [self.sym_chunk(self.epoch, p, j) for j in range(self.nchunks)]
+        if p in self.links:
+            tgt = self.chunks(self.links[p])
+            kl = self.kind(p)
+            return [simp(z3.If(kl == LINK, t, o_)) for t, o_ in zip(tgt, own)]
+        return own
 
     # ------------------------------------------------------------------ library calls
     def call_path(self, I, name, args, node):
@@ -152,7 +180,7 @@ class VfsWorld:
                 if I.branch(simp(k != FILE)):
                     return err(Opaque('IoError', msg='open failed', kind=REnum('ErrorKind', 'NotFound')))
                 return ok(Opaque('StdFile', path=path))
-            k = self.kind(path)
+            k = self.rkind(path)
             if I.branch(simp(k != FILE)):
                 return err(Opaque('IoError', msg='open failed', kind=REnum('ErrorKind', 'NotFound')))
             self.n_open += 1
@@ -175,7 +203,8 @@ class VfsWorld:
             path = I.deref(args[0])
             tl = self.through_link(path)
             I.effect('fs', op='remove_file', path=path, real=(tl[1] if tl else path))
-            if I.branch(simp(self.kind(path) != FILE)):
+            kp = self.kind(path)        # unlink removes a regular file or the link itself (never what the link points to)
+            if I.branch(simp(z3.Not(z3.Or(kp == FILE, kp == LINK)))):
                 return err(Opaque('IoError', msg='remove failed', kind=REnum('ErrorKind', 'NotFound')))
             self.over[path] = ('absent',)
             self.mutation_point(I, 'removed_file ' + path)     # a death before the removal took effect = before the decision
@@ -286,10 +315,13 @@ class VfsWorld:
                 p = v.get('path')
                 if method == 'modified':
                     return ok(Opaque('SystemTime', t=self.mtime(p)))
+                kk = self.kind(p) if v.get('nofollow') else self.rkind(p)
                 if method == 'is_file':
-                    return simp(self.kind(p) == FILE)
+                    return simp(kk == FILE)
                 if method == 'is_dir':
-                    return simp(self.kind(p) == DIR)
+                    return simp(kk == DIR)
+                if method == 'is_symlink':
+                    return simp(kk == LINK)
                 if method == 'len':
                     return 0
             if t == 'WalkDir':
@@ -314,16 +346,19 @@ class VfsWorld:
                 if method == 'file_type':
                     return Opaque('FileType', path=v.get('path'), follow=v.get('follow', False))
                 if method == 'metadata':
-                    return ok(Opaque('Metadata', path=v.get('path')))
+                    # walkdir: DirEntry::metadata follows the link only when the walk does
+                    return ok(Opaque('Metadata', path=v.get('path'), nofollow=not v.get('follow', False)))
+                if method == 'path_is_symlink':
+                    return simp(self.kind(v.get('path')) == LINK)
             if t == 'FileType':
                 # DirEntry::file_type does not follow links unless the walk does
-                k = self.kind(v.get('path'))
+                k = self.rkind(v.get('path')) if v.get('follow') else self.kind(v.get('path'))
                 if method == 'is_file':
                     return simp(k == FILE)
                 if method == 'is_dir':
-                    return simp(z3.Or(k == DIR, z3.And(k == LINK, z3.BoolVal(bool(v.get('follow'))))))
+                    return simp(k == DIR)
                 if method == 'is_symlink':
-                    return simp(z3.And(k == LINK, z3.BoolVal(not v.get('follow'))))
+                    return simp(k == LINK)
             if t == 'Stream' and method in ('buffer_unordered', 'buffered', 'fuse'):
                 return v
             if t == 'Stream' and method == 'next':
@@ -338,7 +373,7 @@ class VfsWorld:
                 return NONE
             if t == 'Output':
                 pass
-        if isinstance(v, str) and method in ('exists', 'is_file', 'is_dir', 'metadata'):
+        if isinstance(v, str) and method in ('exists', 'is_file', 'is_dir', 'is_symlink', 'metadata', 'symlink_metadata'):
             return self.path_query(I, v, method, node)
         return NotImplemented
 
@@ -373,7 +408,7 @@ class VfsWorld:
             descend = simp(self.kind(p) == DIR)
             if p in self.links or self.through_link(p) is not None:
                 # walkdir follows a link only when asked to -- except for the root of the walk, which is always followed
-                descend = simp(z3.Or(self.kind(p) == DIR, z3.And(self.kind(p) == LINK, z3.BoolVal(bool(follow) or depth == 0))))
+                descend = simp(z3.Or(self.kind(p) == DIR, z3.And(self.kind(p) == LINK, self.rkind(p) == DIR, z3.BoolVal(bool(follow) or depth == 0))))
             for c in children(p):
                 rec(c, depth + 1, b_and(g, descend, simp(self.kind(c) != ABSENT)))
         rec(root, 0, simp(rk != ABSENT))
